@@ -18,6 +18,7 @@ import (
 	"bytes"
 	"compress/gzip"
 	"fmt"
+	"io"
 	"io/ioutil"
 	"sync"
 
@@ -104,7 +105,12 @@ func (g *Gzip) OnUnpack(src []byte) (dest []byte, err error) {
 	gr := g.rPool.Get().(*gzip.Reader)
 	err = gr.Reset(bytes.NewReader(src))
 	if err == nil {
-		dest, err = ioutil.ReadAll(gr)
+		// never inflate beyond the limit of a message (decompression bomb)
+		limit := int64(xfer.UnpackLimit())
+		dest, err = ioutil.ReadAll(io.LimitReader(gr, limit+1))
+		if err == nil && int64(len(dest)) > limit {
+			dest, err = nil, xfer.ErrExceedUnpackLimit
+		}
 		// only a reader that was reset successfully can be closed
 		// (Close of a never initialised gzip.Reader dereferences nil)
 		gr.Close()
